@@ -315,6 +315,27 @@ def lookup_cases(ctx: Ctx, h: Harness):
         ctx.unknown("R6.lookup", site, str(e))
 
 
+def consumers(ctx: Ctx, h: Harness):
+    """The consumers of a lookup list take the FIRST entry whose criteria hold, whatever its value (0 included)."""
+    ENC = "xtce/encodings.py"
+    for cls, arg in (("StringDataEncoding", "discrete_lookup_length"), ("BinaryDataEncoding", "size_discrete_lookup_list")):
+        fi = ctx.prog.func(f"{ENC}::{cls}._calculate_size")
+        site = f"{fi.key}::first-match"
+        try:
+            bad = None
+            for vals, m, want in (([0, 16], [1, 1], 0), ([8, 16], [0, 1], 16), ([8, 0, 24], [0, 1, 1], 0), ([5, 6], [1, 1], 5)):
+                lk = ", ".join(f"comparisons.DiscreteLookup([comparisons.Comparison('{mm}', 'ONE')], {v})" for v, mm in zip(vals, m))
+                pkt = h.packet(b"", {"ONE": h.val("Int", 1)})
+                k, got = h.outcome(f"{cls}({arg}=[{lk}])._calculate_size(pkt)", ENC, pkt=pkt)
+                if k != "ok" or got != want:
+                    bad = (f"{cls}: lookup values {vals} with entries matching {[bool(x) for x in m]} gives length {got!r}; "
+                           f"the first matching entry has value {want}")
+                    break
+            ctx.decide(bad is None, "R6.consumer", site, "", bad or "", where=where(fi, fi.node))
+        except Unsupported as e:
+            ctx.unknown("R6.consumer", site, str(e))
+
+
 def taint_rule(ctx: Ctx):
     """R6.2: inside the evaluators no value taken from the packet mapping is used for its truthiness."""
     prog = ctx.prog
@@ -385,6 +406,7 @@ def check(ctx: Ctx) -> None:
     ctx.guard("R6.bool", f"{CMP}::BooleanExpression.evaluate", boolean_cases, ctx, h, thorough)
     ctx.guard("R6.lookup", f"{CMP}::DiscreteLookup.evaluate", lookup_cases, ctx, h)
     ctx.guard("R6.2", CMP, taint_rule, ctx)
+    ctx.guard("R6.consumer", "xtce/encodings.py", consumers, ctx, h)
     # R6.pure: evaluation is a function of the criteria and the packet only (no state kept between evaluations)
     from ..callgraph import CallGraph
     from .c11 import effect_rule
@@ -431,7 +453,7 @@ SPEC = PropSpec(
     pid="C06",
     title="Match criteria evaluate to the mathematical truth of their comparisons",
     check=check,
-    floors={"R6.1": 16, "R6.cmp": 25, "R6.cond": 54, "R6.bool": 40, "R6.lookup": 1, "R6.2": 4, "R6.pure": 4},
+    floors={"R6.1": 16, "R6.cmp": 25, "R6.cond": 54, "R6.bool": 40, "R6.lookup": 1, "R6.2": 4, "R6.pure": 4, "R6.consumer": 2},
     explanation=("(1) Table rule R6.1: every accepted operator spelling maps to the relation it denotes. "
                  "(2) Taint rule R6.2: no truthiness test on a value read from the packet inside the evaluators. "
                  "(3) Decision tables by abstract interpretation of the evaluators' source over model packets and "
